@@ -29,6 +29,7 @@ var (
 	fLog      = flag.Bool("log", false, "print the event log")
 	fRunSeed  = flag.Uint64("runseed", 0, "run exactly this run seed")
 	fAll      = flag.Bool("allprops", false, "treat a violation of any property as failure")
+	fKeepAll  = flag.Bool("keepall", false, "keep the event log of every run in the output (debugging)")
 )
 
 const engineName = "seq"
@@ -84,7 +85,7 @@ func TestWorker(t *testing.T) {
 			continue
 		}
 		stop := watchdog(180*time.Second, fmt.Sprintf("run seed=%d", rs))
-		res := Run(t, rs, prof, nil, i < 2)
+		res := Run(t, rs, prof, nil, i < 2 || *fKeepAll)
 		stop()
 		if res.Infra != "" {
 			fmt.Fprintf(os.Stderr, "INFRA seed=%d: %s\n", rs, res.Infra)
